@@ -533,11 +533,13 @@ class _NP:
         S.assume(S.Forall((n,), lambda i: implies(i >= 1, _numeric(av(ia(i - 1))) <= _numeric(av(ia(i)))), name="argsort.sorted"))
         return idx
 
-    def linspace(self, start, stop, num=50, endpoint=True):
+    def linspace(self, start, stop, num=50, endpoint=True, retstep=False, dtype=None, axis=0):
         """linspace over the reals: node i = start + i*(stop-start)/(num-1); num==1 -> [start]."""
         _use("linspace")
-        if not endpoint:
-            raise Unsupported("linspace(endpoint=False)")
+        if not endpoint or retstep or axis != 0:
+            raise Unsupported("linspace(endpoint=False / retstep / axis)")
+        if dtype is not None and str(dtype) not in ("float64", "float", "<class 'float'>", "d"):
+            raise Unsupported("linspace(dtype=%s): precision of the nodes is not modelled" % (dtype,))
         c = ctx()
         start, stop = _as_scalar(start), _as_scalar(stop)
         if kind_of(num) != "int":
@@ -825,6 +827,16 @@ class _NP:
         return a
 
     def isin(self, element, test_elements, assume_unique=False, invert=False):
+        if assume_unique:
+            # numpy: "If True, the input arrays are BOTH assumed to be unique" - with repeated values the sort-based path
+            # returns wrong answers. The assumption is an obligation on the caller.
+            c0 = ctx()
+            if not c0.in_spec:
+                for nm, arr in (("element", element), ("test_elements", test_elements)):
+                    if _arrish(arr):
+                        a1 = as_array(arr).ravel()
+                        s1 = a1.snapshot()
+                        S.prove("isin.assume_unique.%s_has_no_repeated_values[%s]" % (nm, c0.fresh_name("iu")), S.Forall((a1.shape[0], a1.shape[0]), lambda i, j: implies(i != j, _numeric(s1(i)) != _numeric(s1(j)))), kind="domain")
         """Element-wise membership. test_elements: a scalar, or a 1-D array whose length is concrete or bounded by the
         configuration's structural bound (then written out as a finite disjunction)."""
         _use("isin")
